@@ -10,5 +10,5 @@ import "testing"
 
 func TestVerifC21(t *testing.T) {
 	vc18Run(t, vc18Opts{universes: vEnvInt("VERIF_C21_UNIVERSES", 16), blocks: vEnvInt("VERIF_C21_BLOCKS", 8),
-		groups: vEnvInt("VERIF_C21_GROUPS", 10), faultPct: vEnvInt("VERIF_C21_FAULTPCT", 30), assetWeight: vEnvInt("VERIF_C21_ASSETS", 12), appWeight: vEnvInt("VERIF_C21_APPS", 16), panicPct: vEnvInt("VERIF_C21_PANICS", 2), file: "cases_c21.txt", salt: 0xC21})
+		groups: vEnvInt("VERIF_C21_GROUPS", 10), faultPct: vEnvInt("VERIF_C21_FAULTPCT", 30), assetWeight: vEnvInt("VERIF_C21_ASSETS", 12), appWeight: vEnvInt("VERIF_C21_APPS", 16), panicPct: vEnvInt("VERIF_C21_PANICS", 2), probePct: vEnvInt("VERIF_C21_PROBES", 4), file: "cases_c21.txt", salt: 0xC21})
 }
